@@ -386,6 +386,98 @@ def durability_assumption(chk):
         chk.violation("correspondence", "no sqlite connection of the version index could be inspected", {"theorem_or_tie": "durability assumption of the crash model"}, found_input=False)
 
 
+def restore_into_an_old_format_index(chk):
+    """All-or-nothing also when the restore is the FIRST command to open an index written by an older Conductor
+    (format 1: no commit columns; upgraded in place by whichever command opens it first): a restore that cannot
+    complete -- a listed directory is missing from the archive, a destination already exists, a duplicate row -- must
+    leave exactly the versions that were recorded before (upgraded or not), each with its directory untouched; a
+    restore that can complete adds exactly the archive's versions.  (Seed C12/i: the upgrade left the connection in
+    autocommit mode, so the rows a failing restore had inserted could not be rolled back.)"""
+    import hashlib
+
+    src = implrun.make_project({"exp/COND": 'run_experiment(name="e1", run="echo 1 > $COND_OUT/r")\nrun_experiment(name="e2", run="echo 2 > $COND_OUT/r", deps=[":e1"])\n'}, name="src")
+    r0 = implrun.run_cond(["run", "//exp:e2"], src)
+    ra = implrun.run_cond(["archive", "-o", "a.tar.gz"], src)
+    apath = os.path.join(src, "a.tar.gz")
+    arows = [(r[0], r[1]) for r in au.project_rows(src)]
+    if r0.code != 0 or ra.code != 0 or len(arows) != 2:
+        chk.violation("correspondence", "harness: restore_into_an_old_format_index: set-up failed: %r %r %r" % (r0, ra, arows), {"theorem_or_tie": "scenario set-up"}, found_input=False)
+        return
+    d = au.unpack(apath)
+    damaged = os.path.join(os.path.dirname(d), "damaged.tar.gz")
+    shutil.rmtree(os.path.join(d, au.vdir_rel(*arows[1])))
+    subprocess.run(["tar", "czf", damaged, "-C", d, au.AINDEX, au.vdir_rel(*arows[0])], check=True)
+
+    def target(fmt, precreate=None, duplicate=False):
+        q = implrun.make_project({"keep/COND": 'run_experiment(name="k", run="echo k > $COND_OUT/r")\n',
+                                  "exp/COND": 'run_experiment(name="e1", run="echo 1 > $COND_OUT/r")\nrun_experiment(name="e2", run="echo 2 > $COND_OUT/r", deps=[":e1"])\n'}, name="tgt")
+        rk = implrun.run_cond(["run", "//keep:k"], q)
+        assert rk.code == 0, rk
+        ip = os.path.join(q, au.OUT, au.INDEX)
+        rows = [(r[0], r[1]) for r in au.raw_rows(ip)]
+        if duplicate:                       # the last version of the archive is recorded here already (with its directory)
+            rows.append(arows[1])
+            os.makedirs(os.path.join(q, au.OUT, au.vdir_rel(*arows[1])))
+        if precreate is not None:
+            os.makedirs(os.path.join(q, au.OUT, au.vdir_rel(*precreate)))
+            open(os.path.join(q, au.OUT, au.vdir_rel(*precreate), "precious.txt"), "w").write("mine")
+        os.unlink(ip)
+        conn = sqlite3.connect(ip)
+        if fmt == 1:
+            conn.execute("CREATE TABLE version_index (task_identifier TEXT NOT NULL, timestamp INTEGER NOT NULL, git_commit TEXT NOT NULL, PRIMARY KEY (task_identifier, timestamp))")
+            conn.executemany("INSERT INTO version_index VALUES (?, ?, 'abc')", rows)
+        else:
+            conn.execute("CREATE TABLE version_index (task_identifier TEXT NOT NULL, timestamp INTEGER NOT NULL, git_commit_hash TEXT, has_uncommitted_changes INTEGER NOT NULL, PRIMARY KEY (task_identifier, timestamp))")
+            conn.executemany("INSERT INTO version_index VALUES (?, ?, NULL, 0)", rows)
+        conn.execute("PRAGMA user_version = %d" % fmt)
+        conn.commit()
+        conn.close()
+        return q, rows
+
+    def keys(q):
+        conn = sqlite3.connect("file:%s?mode=ro" % os.path.join(q, au.OUT, au.INDEX), uri=True)
+        try:
+            return sorted(conn.execute("SELECT task_identifier, timestamp FROM version_index").fetchall())
+        finally:
+            conn.close()
+
+    for fmt in (2, 1):
+        for what, archive, kw, completes in (("a listed directory is missing from the archive", damaged, {}, False),
+                                             ("the destination of the second version exists", apath, {"precreate": arows[1]}, False),
+                                             ("the second version is recorded already", apath, {"duplicate": True}, False),
+                                             ("nothing in the way", apath, {}, True)):
+            q, rows = target(fmt, **kw)
+            snap_b = implrun.tree_snapshot(os.path.join(q, au.OUT), skip=(au.INDEX, au.INDEX + ".v1.bak", au.STAGING))
+            res = implrun.run_cond(["restore", archive], q)
+            after = keys(q)
+            snap_a = implrun.tree_snapshot(os.path.join(q, au.OUT), skip=(au.INDEX, au.INDEX + ".v1.bak", au.STAGING))
+            snap_a = {k: v for k, v in snap_a.items() if not k.startswith(au.INDEX)}
+            snap_b = {k: v for k, v in snap_b.items() if not k.startswith(au.INDEX)}
+            chk.coverage["evaluations"] += 1
+            chk.count("old-format-index", "format %d, %s" % (fmt, "completes" if completes else "fails"))
+            msgs = []
+            if completes:
+                if res.code != 0 or after != sorted(rows + arows):
+                    msgs.append("exit %s, recorded versions %r (wanted %r)" % (res.code, after, sorted(rows + arows)))
+                elif any(not os.path.isdir(os.path.join(q, au.OUT, au.vdir_rel(*k))) for k in after):
+                    msgs.append("a recorded version has no directory")
+            else:
+                if res.code == 0:
+                    msgs.append("exit status 0")
+                if after != sorted(rows):
+                    msgs.append("the recorded versions were %r and are %r after the failed restore" % (sorted(rows), after))
+                changed = sorted(k for k, v in snap_b.items() if snap_a.get(k) != v)
+                if changed:
+                    msgs.append("existing outputs were modified or removed: %r" % changed[:3])
+            for m in msgs[:2]:
+                chk.violation("impl-violation", "`cond restore` as the first command on a format-%d index, %s: %s" % (fmt, what, m),
+                              {"input": {"part": "old-format-index", "format": fmt, "case": what}, "impl_observation": {"exit": res.code, "rows_before": rows, "rows_after": after,
+                               "stderr": implrun.strip_ansi(res.err)[-300:]}, "oracle_verdict": m}, match_key={"part": "old-format-index"}, size=3)
+            if not msgs:
+                chk.coverage["traces_validated_against_impl"] += 1
+            shutil.rmtree(os.path.dirname(q), ignore_errors=True)
+
+
 def run(tier, seed, replay=None):
     chk = Check("C12", tier, seed)
     # (the stale-staging defect D18 found by this check is fixed in /repo by commit a192dfb; see known_findings.jsonl)
@@ -403,6 +495,7 @@ def run(tier, seed, replay=None):
         return chk.finish()
     else:
         durability_assumption(chk)
+        restore_into_an_old_format_index(chk)
         au.staging_collision(chk, "C12")     # D23: restore vs. a package named like its staging directory
         jobs = []
         # corpus: every fault once on a fixed-shape project, then random subsets
